@@ -353,6 +353,32 @@ pub fn pascal(s: &str) -> String {
 // C03: exactness against the reference inference
 // ---------------------------------------------------------------------------------------
 
+/// The rendered text could not be read back as a tree of struct definitions. When the well-formedness
+/// checker objects to it for a reason other than the two listed duplicate-name findings, there is no
+/// struct for some position at all, so the property that needs that struct is violated (the case used
+/// to be counted inconclusive, leaving the report to C04 alone). Otherwise: inconclusive, as before.
+fn unreadable_rendering(case: &HistoryCase, obs: &Obs, err: &str, sig: &str, rep: &mut Report) {
+    let serious: Vec<Complaint> = c04_complaints(&obs.out_unsorted, &obs.model)
+        .into_iter()
+        .filter(|c| !c.sig.starts_with("dup-struct:identical-pascal-trace") && !c.sig.starts_with("dup-struct:concat-ambiguity"))
+        .collect();
+    if let Some(c) = serious.first() {
+        rep.violation(
+            sig,
+            format!(
+                "the rendering cannot be read as struct definitions for every position ({}); well-formedness objection: {} — {}\noutput:\n{}",
+                short(err),
+                c.sig,
+                c.detail,
+                obs.out_unsorted
+            ),
+            case.to_json(),
+        );
+    } else {
+        rep.inconclusive(&format!("extractor: {}", short(err)));
+    }
+}
+
 pub fn check_c03(case: &HistoryCase, obs: &Obs, rep: &mut Report) {
     if !model::bound_names_unique(&obs.model) {
         rep.skipped_precondition += 1;
@@ -361,7 +387,7 @@ pub fn check_c03(case: &HistoryCase, obs: &Obs, rep: &mut Report) {
     let (_, etree) = match extract_tree(&obs.out_unsorted) {
         Ok(x) => x,
         Err(e) => {
-            rep.inconclusive(&format!("extractor: {}", short(&e)));
+            unreadable_rendering(case, obs, &e, "inexact:unreadable-rendering", rep);
             return;
         }
     };
@@ -600,7 +626,7 @@ pub fn check_c01(case: &HistoryCase, obs: &Obs, rep: &mut Report) {
     let (_, etree) = match extract_tree(&obs.out_unsorted) {
         Ok(x) => x,
         Err(e) => {
-            rep.inconclusive(&format!("extractor: {}", short(&e)));
+            unreadable_rendering(case, obs, &e, "not-admitted:unreadable-rendering", rep);
             return;
         }
     };
